@@ -76,8 +76,39 @@ theorem setOptBody_pres (L : Leaf I) (u : Nat) (k : String) (v : JVal) (b : Bool
   unfold setOptBody
   aesop (add safe apply h) (rule_sets := [Pres]) (config := { terminal := true, useDefaultSimpSet := false, useSimpAll := false, maxRuleApplications := 3000 })
 
+/-- the option values of `add` never touch the (empty) process list of the watcher being built -/
+theorem applyAddOptions_pids (l : List (String × JVal)) :
+    ∀ (w w2 : Watcher), applyAddOptions w l = some w2 → w2.pids = w.pids := by
+  induction l with
+  | nil => intro w w2 h; simp only [applyAddOptions, Option.some.injEq] at h; rw [← h]
+  | cons kv rest ih =>
+    intro w w2 h
+    obtain ⟨k, v⟩ := kv
+    simp only [applyAddOptions] at h
+    split at h
+    · rename_i w1 hw1
+      have := ih w1 w2 h
+      rw [this]
+      split at hw1 <;> (try split at hw1) <;>
+        first
+        | (simp only [Option.some.injEq] at hw1; rw [← hw1])
+        | (simp only [Option.map_eq_some_iff] at hw1; obtain ⟨n, _, hn⟩ := hw1; rw [← hn])
+    · exact absurd h (by simp)
+
 theorem addCore_pres (L : Leaf I) (p : JVal) : Pres I (addCore p) := by
-  unfold addCore; presx
+  unfold addCore
+  split <;> dsimp only <;> split
+  all_goals first
+    | (rename_i name _
+       apply Pres.ite
+       · presx
+       · split
+         · presx
+         · rename_i w hw
+           have hp : w.pids = [] := applyAddOptions_pids _ _ _ hw
+           have hr := L.registerNew w hp
+           aesop (add safe apply hr) (rule_sets := [Pres]) (config := { terminal := true, useDefaultSimpSet := false, useSimpAll := false, maxRuleApplications := 3000 }))
+    | presx
 
 theorem runReady1_pres (X : LeafX I) (rec : Rec) (hrec : ∀ t, Pres I (rec t)) (hq : Pres I sigQuit) (r : Ready) :
     Pres I (runReady1 rec r) := by
